@@ -86,7 +86,7 @@ SIM = {
     "C12": {
         "props": ["C12"],
         "designs": [],
-        "profiles": [{"p_txn": 0.7, "p_cancel": 0.4, "p_replace": 0.4, "p_update": 0.25, "p_suspend": 0.25, "p_mver": 0.3, "p_trade": 0.85, "p_action": 0.85, "max_orders": 10, "n_strategies": (1, 1), "p_multi_trade": 0.4, "p_removal": 0.06}],
+        "profiles": [{"p_txn": 0.7, "p_cancel": 0.4, "p_replace": 0.4, "p_update": 0.25, "p_suspend": 0.25, "p_mver": 0.3, "p_trade": 0.85, "p_action": 0.85, "max_orders": 10, "n_strategies": (1, 1), "p_multi_trade": 0.4, "p_removal": 0.06, "p_txlimit": 0.5}],
         "extra": ["replace_package", "failed_packages", "package_voided"],
         "n_quick": 120, "n_thorough": 3000,
         "rule": "",
@@ -116,7 +116,7 @@ SIM = {
     },
     "C04": {
         "props": ["C04"],
-        "extra": ["early_result"],
+        "extra": ["early_result", "sp_conversion"],
         "designs": simcore_designs(["Inv_C04_Conserved", "Inv_C04_CompleteIff"], ["Prop_C04_MatchedMonotone"])
         + simrun_designs(["Inv_C04_Conserved", "Inv_C04_CompleteIff"], ["Prop_C04_MatchedMonotone"]),
         "profiles": LIFECYCLE_PROFILES + [{"p_partial_cancel": 0.8, "p_big_reduction": 0.5, "p_removal": 0.12, "p_cancel": 0.5}],
@@ -197,7 +197,7 @@ SIM = {
                     {"module": "MC_Closure", "constants": {"Markets": '{"m1", "m2"}', "Strategies": '{"A", "B", "C"}', "Subscribed": "<- SubDef", "Clients": '{"c1", "c2"}', "Live": "TRUE", "MaxSteps": "6"},
                      "invariants": ["Inv_CallbackOncePerClosingUpdate", "Inv_ReopenResetsFlags", "Inv_LiveRemovesOnlyAfterHour", "Inv_RemovedStateReleased"], "must_reach": ["Reach_Removed"]}],
         "profiles": [{"p_close": 1.0, "n_markets": (1, 2), "n_updates": (3, 8)}],
-        "extra": ["closure", "handicap_lines"],
+        "extra": ["closure", "handicap_lines", "settlement"],
         "n_quick": 80, "n_thorough": 2000,
         "rule": "closing-update patterns (repeated CLOSED, close-data-close, first update CLOSED, two markets in either order, strategies subscribed / not subscribed / empty filter, two clients) through the real simulation; callbacks, cleared events and released state counted per closing update",
         "assumptions": ASSUME_SIM + ["cleared-orders / cleared-market events are counted per closing update processed (reading decision, DESIGN.md section 5)", "the live half (closure through the handler queue, removal after an hour) is decided by the live driver (checks/livecheck.py)"],
